@@ -95,6 +95,8 @@ func (v *VStruct) Valid(src interface{}) error {
 
 	reflectValue := RemoveValuePtr(reflect.ValueOf(src))
 	switch reflectValue.Kind() {
+	case reflect.Invalid: // 空指针, 如: (*T)(nil)
+		return errors.New("src \"" + reflect.TypeOf(src).String() + "\" is nil")
 	case reflect.Ptr:
 		if reflectValue.IsNil() {
 			return errors.New("src \"" + reflectValue.Type().String() + "\" is nil")
@@ -134,6 +136,9 @@ func (v *VStruct) getValidFn(validName string) (CommonValidFn, error) {
 // isValidGatherObj 是否验证集合对象, 包含: slice/array/map
 func (v *VStruct) validate(structName string, value reflect.Value, isValidGatherObj ...bool) *VStruct {
 	tv := RemoveValuePtr(value)
+	if !tv.IsValid() { // 空指针(如: 切片/map 里的 nil 元素, 多级指针最里层为 nil)直接跳过
+		return v
+	}
 	ty := tv.Type()
 	// fmt.Printf("ty: %v, structName: %q\n", ty, structName)
 	// 如果不是结构体就退出
